@@ -637,3 +637,71 @@ def r9(ctx: Ctx) -> None:
                 ok = len(pair) == 1 and list(pair.values()) == [0.5] and rest == others and (stored is None or stored in pair)
                 exp = "one entry for the pair holding the new coefficient, the four other pairs untouched"
             ctx.check(ok, f, f.node, what, exp, f"pair entries {pair}, other entries {sorted(rest)}")
+
+
+@rule("C12.R10", "a market's fundamental path starts at its configured fundamentalPrice; marketPrice stands in only when no fundamentalPrice is given", "T6 finite model over which of the two keys are present", floor=2)
+def r10(ctx: Ctx) -> None:
+    q = "SequentialRunner._generate_markets"
+    f = ctx.func(q)
+
+    class _W(_PairWorld):
+        def eval(self, t: Term) -> Any:  # noqa: A003
+            if t[0] == "call" and t[1][0] == "attr" and t[1][2] == "get" and len(t[2]) in (1, 2) and not t[3]:
+                d = self.eval(t[1][1])
+                k = self.eval(t[2][0])
+                if isinstance(d, dict):
+                    return d[k] if k in d else (self.eval(t[2][1]) if len(t[2]) == 2 else None)
+            if t[0] == "call" and t[1][0] == "name" and t[1][1] in ("float", "int") and len(t[2]) == 1:
+                v = self.eval(t[2][0])
+                if v is None:
+                    raise TypeError("float(None)")
+                return float(v) if t[1][1] == "float" else int(v)
+            return super().eval(t)
+
+    def settings_terms(t: Term) -> List[Term]:
+        return [x for x in subterms(t) if x[0] == "sym" and "setting" in x[1]] + [x for x in subterms(t) if x[0] == "call" and key(x[1]).endswith("json_extends")]
+
+    seen = 0
+    verdicts = set()
+    for top in normal_paths(ctx.paths(q)):
+        stack = [(top, list(top.conds))]
+        while stack:
+            path, conds = stack.pop()
+            for e in path.events:
+                if e.kind == "loop":
+                    for bp in e.paths:
+                        if bp.exit[0] != "raise":
+                            stack.append((bp, conds + list(bp.conds)))
+                if e.kind == "call" and e.name == "add_market" and kw(e, "initial") is not None:
+                    init = strip_ver(kw(e, "initial"))
+                    roots = {key(x) for x in settings_terms(init)}
+                    if len(roots) != 1:
+                        ctx.unrec(f, e.node, "initial value of the fundamental path", "the value is not read from one settings dictionary", short(init)[:120])
+                        continue
+                    root = next(iter(roots))
+                    for present in (("fundamentalPrice",), ("marketPrice",), ("fundamentalPrice", "marketPrice")):
+                        vals = {"fundamentalPrice": 1.0, "marketPrice": 2.0}
+                        w = _W({root: {k: vals[k] for k in present}})
+                        try:
+                            feasible = True
+                            for c, pol, _ in conds:
+                                cs = strip_ver(c)
+                                if not any(isinstance(x, tuple) and x and x[0] == "const" and x[1] in vals for x in subterms(cs)):
+                                    continue
+                                if bool(w.eval(cs)) != pol:
+                                    feasible = False
+                                    break
+                            if not feasible:
+                                continue
+                            got = w.eval(init)
+                        except (Unrecognised, TypeError, KeyError) as ex:
+                            ctx.unrec(f, e.node, "initial value of the fundamental path", f"not evaluable in the model ({type(ex).__name__}: {str(ex)[:80]})", short(init)[:120])
+                            continue
+                        seen += 1
+                        want = vals["fundamentalPrice"] if "fundamentalPrice" in present else vals["marketPrice"]
+                        k_ = (present, got == want)
+                        if k_ in verdicts:
+                            continue
+                        verdicts.add(k_)
+                        ctx.check(got == want, f, e.node, f"initial value of the fundamental path when the market type gives {' and '.join(present)}", "fundamentalPrice if given, else marketPrice", f"{'marketPrice' if got == 2.0 else ('fundamentalPrice' if got == 1.0 else got)} is used ({short(init)[:100]})")
+    ctx.require(seen >= 3, f"{q}: registration of the fundamental path not found for the three cases")
